@@ -33,7 +33,7 @@ def _case(draw):
     return {"cls": cls, "features": f, "nh": nh, "init": draw(st.booleans()), "cache": draw(st.booleans()),
             "state": draw(st.sampled_from(["fresh", "perturbed", "perturbed", "qscale", "sgd"])), "sigma": draw(st.sampled_from([0.1, 0.5, 1.0])),
             "qscale": draw(st.sampled_from([1e-4, 1e-3, 1e-2, 0.1, 10.0, 100.0])), "bias": draw(st.booleans()),
-            "precise": draw(st.sampled_from([True, True, False])), "seed": draw(st.integers(0, 10 ** 6)), "eval": draw(st.booleans()),
+            "precise": draw(st.sampled_from([True, True, False])), "seed": draw(st.integers(0, 10 ** 6)), "eval": draw(st.booleans()), "converted": draw(st.booleans()),
             "first": draw(st.sampled_from(["forward", "inverse"])), "wscale": draw(st.sampled_from([1.0, 1.0, 1.0, 1e-3, 1e3, 30.0])),
             "prelude": draw(st.sampled_from([None, None, "cached_call_then_cache_off"]))}
 
@@ -47,8 +47,10 @@ def run_case(case):
 
     res = CaseResult()
     f, cls = case["features"], case["cls"]
-    with dtype_mode(case["precise"]):
-        dtype = torch.get_default_dtype()
+    converted = bool(case["precise"] and case.get("converted"))
+    with dtype_mode(case["precise"] and not converted):
+        # converted: built under the float32 default, then .double(), float64 inputs (the usual way a double-precision model comes about)
+        dtype = torch.float64 if case["precise"] else torch.float32
         tol = 1e-9 if case["precise"] else 3e-4
         g = torch.random.get_rng_state()
         torch.manual_seed(case["seed"])
@@ -68,6 +70,8 @@ def run_case(case):
                 m = T.HouseholderSequence(f, case["nh"])
         finally:
             torch.random.set_rng_state(g)
+        if converted:
+            m = m.double()
         site = type(m).__name__
         res.labels += ["cls:" + cls, "state:" + case["state"], "dtype:%s" % ("f64" if case["precise"] else "f32"),
                        "nh>%s" % ("f" if case["nh"] > f else "=<f") if cls in ("qr", "svd", "householder") else "nh:-"]
@@ -210,11 +214,17 @@ def run_case(case):
                     break
                 if d == "forward":
                     y, ld = m(x)
+                    if y.dtype != x.dtype or ld.dtype != x.dtype:
+                        res.fail("dtype", site, "forward of a %s model on %s inputs returns %s / %s" % (dtype, x.dtype, y.dtype, ld.dtype), direction="forward")
+                        return res
                     ok = close(y.double().numpy(), xn @ W.T + b, 1 + np.abs(xn @ W.T + b).max(), "forward(x) vs x W^T + b") and \
                         close(ld.double().numpy(), np.full(3, lad), 1 + abs(lad), "forward log-det vs slogdet", cond)
                 else:
                     yin = x
                     xi, ldi = m.inverse(yin)
+                    if xi.dtype != x.dtype or ldi.dtype != x.dtype:
+                        res.fail("dtype", site, "inverse of a %s model on %s inputs returns %s / %s" % (dtype, x.dtype, xi.dtype, ldi.dtype), direction="inverse")
+                        return res
                     ref = (xn - b) @ Winv.T
                     ok = close(xi.double().numpy(), ref, 1 + np.abs(ref).max(), "inverse(y) vs (y-b) W^-T", cond) and \
                         close(ldi.double().numpy(), np.full(3, -lad), 1 + abs(lad), "inverse log-det vs -slogdet", cond)
